@@ -323,7 +323,10 @@ func (x *Exec) typeAxiom(name string, arr Term, alloc Term) (Term, bool) {
 	} else if isNamed(c.Typ, "time", "Time") {
 		return Term{}, false
 	} else if isRefLike(c) {
-		body = And(Ge(el, TZero), Le(el, alloc))
+		// only objects that exist (index <= alloc) are known to hold references to existing objects: the
+		// array's values at indices not yet allocated are what a contracted callee's fresh results will
+		// be read from, and those may refer to anything allocated by then
+		body = And(Ge(el, TZero), Implies(Le(i, alloc), Le(el, alloc)))
 	} else {
 		body = Ge(el, TZero)
 	}
